@@ -121,9 +121,14 @@ def py_match(obj, path, op, ref):
 
 
 def member(I, objs, rec_d):
+    def is_it(x):
+        if isinstance(x, Guarded):            # a position of a symbolically sorted list: one of several original objects
+            return z3.Or(*[z3.And(c, is_it(y)) for c, y in x.alts]) if x.alts else FALSE
+        return z3.BoolVal(x is rec_d)
+
     def one(v):
         if isinstance(v, SList):
-            return z3.Or(*[z3.And(I._lb(c), z3.BoolVal(x is rec_d)) for c, x in v.items]) if v.items else FALSE
+            return z3.Or(*[z3.And(I._lb(c), is_it(x)) for c, x in v.items]) if v.items else FALSE
         if isinstance(v, (tuple, list)):
             return z3.BoolVal(any(x is rec_d for x in v))
         return FALSE
